@@ -135,11 +135,11 @@ def _judge(ctx, out, kind, obj, tag=""):
 def _bystanders(ctx, w, fixed=None):
     """number and flavours of sleeping bystander payloads: symbolic choices, or pinned by the task"""
     beats = []
-    flav = ["threading", "asyncio", "trio"]
+    flav = ["threading", "asyncio", "trio", "asyncio_stubborn"]
     if fixed is not None:
         return list(fixed), beats
     n = ctx.choice("bystanders", 3)
-    return [flav[ctx.choice("bystander_flavour_%d" % i, 3)] for i in range(n)], beats
+    return [flav[ctx.choice("bystander_flavour_%d" % i, 4)] for i in range(n)], beats
 
 
 def meta_queued(ctx, flavour, bystanders=None):
@@ -283,7 +283,7 @@ def tasks(tier, seed):
         k += 1
         if tier == "thorough" and k % 3 == 0:
             return None  # symbolic number and flavours
-        return [[], [flav[k % 3]], [flav[k % 3], flav[(k + 1) % 3]]][k % 3]
+        return [[], [flav[k % 3]], [flav[k % 3], "asyncio_stubborn"]][k % 3]
 
     for f in flav:
         out.append(Task(MOD, "meta_queued", dict(flavour=f, bystanders=by()), model="R", weight=5, shards=4, witness_every=wit))
